@@ -248,9 +248,11 @@ def coded_pair(h, w):
     return x, seg
 
 
-def check_pair(x, seg, W0):
+def check_pair(x, seg, W0, allow_padding=True):
     """Every non-padding mask pixel must decode to the source pixel that the image shows at the same place."""
     import torch
+    if not allow_padding and bool((x[0] == 0).any()):
+        return "the output contains pixels from outside the input (zero fill) although the pipeline does not pad"
     if tuple(x.shape[-2:]) != tuple(seg.shape[-2:]):
         return f"image {tuple(x.shape)} and mask {tuple(seg.shape)} differ in size"
     valid = seg >= 0
@@ -268,6 +270,8 @@ def check_pair(x, seg, W0):
 
 SEMSEG_PIPES = {
     "crop": lambda s: [("KDSemsegRandomCrop", dict(size=s))],
+    "crop_wide": lambda s: [("KDSemsegRandomCrop", dict(size=(s, s + 2)))],
+    "crop_tall": lambda s: [("KDSemsegRandomCrop", dict(size=(s + 2, s)))],
     "crop_ratio": lambda s: [("KDSemsegRandomCrop", dict(size=s, max_category_ratio=0.75))],
     "flip": lambda s: [("KDSemsegRandomHorizontalFlip", dict())],
     "resize": lambda s: [("KDSemsegRandomResize", dict(base_size=(s, s + 1), ratio=(0.5, 2.0), interpolation="nearest"))],
@@ -329,10 +333,10 @@ def run_semseg(cfg, ch):
         return "exception:RuntimeError", repr(e)
     except Exception as e:
         return f"exception:{type(e).__name__}", repr(e)
-    err = check_pair(x, seg, w)
+    err = check_pair(x, seg, w, allow_padding=pipe in ("pad", "full", "full_old"))
     if err:
-        return "image_and_mask_geometry_differ", err
-    want = {"crop": (min(h, s), min(w, s)), "pad": (max(h, s), max(w, s)), "full": (s, s), "full_old": (s, s + 1),
+        return ("window_leaves_the_input" if "outside the input" in err else "image_and_mask_geometry_differ"), err
+    want = {"crop": (min(h, s), min(w, s)), "crop_wide": (min(h, s), min(w, s + 2)), "crop_tall": (min(h, s + 2), min(w, s)), "pad": (max(h, s), max(w, s)), "full": (s, s), "full_old": (s, s + 1),
             "fixed_resize": (s, s + 1)}.get(pipe)
     if want is not None and tuple(seg.shape) != want:
         return "output_size_wrong", f"{pipe} output {tuple(seg.shape)} for input {h}x{w}, size {s}, expected {want}"
